@@ -300,7 +300,7 @@ func genC07(t *rapid.T) PairCase {
 	}
 	if opts == "list" && gen.Chance(t, "longDistant", 3) {
 		// a long array with two edits far apart
-		n := gen.Int(t, "n", 520, 700)
+		n := gen.Int(t, "n", 520, 700*gen.Scale())
 		a := make([]val.V, n)
 		for i := range a {
 			a[i] = float64(i)
